@@ -422,6 +422,60 @@ def tf_mint(pid):
     return f
 
 
+def venue_v4(pid):
+    """ig.v4 venue kind x y z p conf ema emaConf maxConf => rt ; rt-low ; tw ; tw-high"""
+    def f(op, impl, model):
+        if not op.startswith("ig.v4"):
+            return None
+        names = ["real-time price", "real-time low-biased price", "time-weighted price", "time-weighted high-biased price"]
+        a = op.split()
+        venue = {"0": "Kamino", "1": "Solend", "2": "Drift"}.get(a[1], "?")
+        kind = "Pyth" if a[2] == "1" else "Switchboard"
+        if impl.strip() == model.strip():
+            return None
+        ii, mm = [x.strip() for x in impl.split(";")], [x.strip() for x in model.split(";")]
+        if len(ii) == 4 and len(mm) == 4:
+            for k in range(4):
+                if ii[k] != mm[k]:
+                    return (f"{pid} the {venue} / {kind} arm of the price adapter hands out a {names[k]} of [{ii[k]}] where re-scaling EVERY component of the feed "
+                            f"(price, confidence, time-weighted price, its confidence) by the venue's exchange rate gives [{mm[k]}]: venue-backed collateral is "
+                            f"valued with a confidence band that does not match its price: {op}")
+        if impl.startswith("ok") or ";" in impl:
+            return (f"{pid} the {venue} / {kind} arm produces a feed [{impl[:200]}] where the exact re-scaling fails / gives [{model[:200]}]: {op}")
+        return None
+    return f
+
+
+def wrapper_free_value(pid):
+    """w.<op> <bank 16> <position 6> now amount => ok <bank 16> <position 6>: the SAME amount moved, but the implementation debits
+    fewer deposit shares / books fewer debt shares (outgoing) or credits more deposit shares / clears more debt shares (incoming)
+    than the exact accounting: value out of nothing, at the expense of the bank's other users"""
+    def f(op, impl, model):
+        kind = op.split(" ", 1)[0]
+        out_ops = ("w.wd", "w.bor", "w.wdcap")
+        in_ops = ("w.dep", "w.rep", "w.depcap")
+        if kind not in out_ops + in_ops:
+            return None
+        i, m = _nums(impl), _nums(model)
+        if not i or not m or len(i) < 22 or len(m) < 22:
+            return None
+        a = op.split()
+        amount = a[-1]
+        (isa, isl, ia, il) = (i[2], i[3], i[18], i[19])
+        (msa, msl, ma, ml) = (m[2], m[3], m[18], m[19])
+        if kind in out_ops and (ia > ma or il < ml):
+            return (f"{pid} {kind} of {amount} (2^-48 tokens): the position keeps {ia} deposit shares / owes {il} debt shares where the exact accounting leaves "
+                    f"{ma} / {ml}; the same tokens leave the vault, so the difference is paid by the bank's other users (share values {i[0]}, {i[1]}): {op[:300]}")
+        if kind in in_ops and (ia > ma or il < ml):
+            return (f"{pid} {kind} of {amount} (2^-48 tokens): the position is credited {ia} deposit shares / left with {il} debt shares where the exact accounting gives "
+                    f"{ma} / {ml} for the same tokens paid in: {op[:300]}")
+        if kind in out_ops + in_ops and (isa != msa or isl != msl) and ia == ma and il == ml:
+            return (f"{pid} {kind} of {amount}: the bank totals move to ({isa}, {isl}) where the exact accounting gives ({msa}, {msl}) although the position is booked "
+                    f"identically: totals and positions drift apart: {op[:300]}")
+        return None
+    return f
+
+
 def venue_booking(pid):
     """vn.kdep .. now expected pre post / vn.kwd .. : accepted by the implementation where the model (what the handler must
     make of the venue's answer) refuses, or a different booking"""
@@ -460,23 +514,23 @@ def c06_accrual(op, impl, model):
 
 
 WITNESS = {
-    "C04": [c04_health, emode_dupes("C04")],
+    "C04": [c04_health, emode_dupes("C04"), venue_v4("C04")],
     "C13": [emode_dupes("C13"), emode_leverage("C13"), accepted_invalid_curve("C13")],
     "C18": [accepted_invalid_curve("C18")],
     "C12": [accepted_invalid_curve("C12"), bracket_conditions("C12")],
-    "C05": [c05_health, c05_liq, value_scaling("C05"), c05_conditions],
+    "C05": [c05_health, c05_liq, value_scaling("C05"), c05_conditions, venue_v4("C05")],
     "C07": [c07_health, c07_soc],
-    "C09": [c09_health],
+    "C09": [c09_health, venue_v4("C09")],
     "C16": [c16_foc, c16_tags],
-    "C03": [ixf_tokens("C03"), tf_mint("C03"), venue_booking("C03")],
+    "C03": [ixf_tokens("C03"), tf_mint("C03"), venue_booking("C03"), wrapper_free_value("C03")],
     "C17": [c17_limits],
     "C06": [c06_accrual],
     "C19": [c19_emissions, tf_mint("C19")],
-    "C02": [c02_closebank, venue_booking("C02")],
+    "C02": [c02_closebank, venue_booking("C02"), wrapper_free_value("C02")],
     "C11": [c11_health],
     "C10": [bracket_conditions("C10"), c10_health],
-    "C20": [c20_venue_value, c20_fail_closed, venue_booking("C20")],
-    "C01": [ixf_tokens("C01"), tf_mint("C01"), venue_booking("C01")],
+    "C20": [c20_venue_value, c20_fail_closed, venue_booking("C20"), venue_v4("C20")],
+    "C01": [ixf_tokens("C01"), tf_mint("C01"), venue_booking("C01"), wrapper_free_value("C01")],
 }
 
 
